@@ -237,6 +237,7 @@ def replay(payload, verbose=False):
     s2 = Solver()
     bv, iv = declare(s2, p["order"], p["doms"])
     try:
+        ret = None
         for k, t in enumerate(p["steps"][:step + 1]):
             try:
                 s2.ensure(trees.mk(t, bv, iv))
@@ -244,6 +245,8 @@ def replay(payload, verbose=False):
                 continue
             if p.get("late") and k == 1:
                 bv = bv + [s2.bool_var()]
+            if k < step:
+                s2.find_answer(backend="z3")          # the same history as in the check: a solve after every step
         if payload.get("pins") is not None:
             # a point where the emitted z3 program and the reference meaning differ: pin every variable to it
             a = {}
